@@ -645,6 +645,7 @@ type LoopSpec struct {
 	Ordinal    int
 	Invariants []*Clause
 	Exits      []*Clause // assertions that must hold whenever the loop is left (any exit edge)
+	Leaves     []*Clause // assertions on every edge that leaves the loop STATEMENT (after the statements executed before a break)
 }
 
 type PredDef struct {
@@ -714,6 +715,9 @@ type GhostStmt struct {
 	Var         string
 	Expr        *SExpr
 	Src         string
+	Soft        bool     // cut soft ...: nothing is forgotten; the focused context is only tried first
+	Keep        []string // cut keep(l1, l2, ...): labels of the facts every later obligation sees in its focused context
+	Cut         bool    // cut @ ...: after the statements listed before it at the same place, later obligations of the dominated code forget every earlier assumption except the requires and the facts asserted here
 	Assert      *Clause // assert [label] EXPR @ ...: an intermediate assertion (proved at that point, then available as a fact)
 }
 
@@ -771,7 +775,7 @@ var clauseKeywords = map[string]bool{
 	"props": true, "requires": true, "ensures": true, "modifies": true, "loop": true,
 	"invariant": true, "trusted": true, "inline": true, "mode": true, "params": true,
 	"maypanic": true, "fdef": true, "pure": true, "noalloc": true, "set": true, "reason": true,
-	"uses": true, "lemma": true, "exit": true, "free_ensures": true, "ensures_local": true,
+	"uses": true, "lemma": true, "exit": true, "leave": true, "cut": true, "free_ensures": true, "ensures_local": true,
 	"atomic": true, "exclusive": true, "abstracts": true, "ufarith": true, "smtlemma": true, "induct": true, "vars": true, "claim": true, "pattern": true, "smtaxiom": true, "smtdef": true, "guarded": true, "assert": true,
 }
 
@@ -966,6 +970,27 @@ func ParseSpecFile(path, pkgPath string) (*SpecFile, error) {
 					return nil, fail(err)
 				}
 				cur.Ghost = append(cur.Ghost, gs)
+			case "cut":
+				var keep []string
+				soft := false
+				if strings.HasPrefix(rest, "soft ") {
+					soft = true
+					rest = strings.TrimSpace(rest[5:])
+				}
+				if strings.HasPrefix(rest, "keep(") {
+					if k := strings.Index(rest, ")"); k > 0 {
+						for _, l := range strings.Split(rest[len("keep("):k], ",") {
+							keep = append(keep, strings.TrimSpace(l))
+						}
+						rest = strings.TrimSpace(rest[k+1:])
+					}
+				}
+				gs, err := parseGhostStmt("_ = true " + rest)
+				if err != nil {
+					return nil, fail(err)
+				}
+				gs.Var, gs.Cut, gs.Src, gs.Keep, gs.Soft = "", true, rest, keep, soft
+				cur.Ghost = append(cur.Ghost, gs)
 			case "assert":
 				// assert [label] EXPR @ before|after N CALLEE : a cut point inside the body
 				at := strings.LastIndex(rest, "@")
@@ -983,7 +1008,7 @@ func ParseSpecFile(path, pkgPath string) (*SpecFile, error) {
 				}
 				gs.Var, gs.Expr, gs.Assert, gs.Src = "", cl.Expr, cl, rest
 				cur.Ghost = append(cur.Ghost, gs)
-			case "requires", "ensures", "invariant", "exit", "free_ensures", "ensures_local":
+			case "requires", "ensures", "invariant", "exit", "leave", "free_ensures", "ensures_local":
 				cl, err := parseClause(rest)
 				if err != nil {
 					return nil, fail(err)
@@ -1005,6 +1030,11 @@ func ParseSpecFile(path, pkgPath string) (*SpecFile, error) {
 						return nil, fail(fmt.Errorf("exit outside loop"))
 					}
 					curLoop.Exits = append(curLoop.Exits, cl)
+				case "leave":
+					if curLoop == nil {
+						return nil, fail(fmt.Errorf("leave outside loop"))
+					}
+					curLoop.Leaves = append(curLoop.Leaves, cl)
 				case "invariant":
 					if curLoop == nil {
 						return nil, fail(fmt.Errorf("invariant outside loop"))
